@@ -44,6 +44,7 @@ type c07Case struct {
 	Steps       []c07Step `json:"steps"`
 	MapSeed     uint64    `json:"map_seed"`
 	MapIdentity bool      `json:"map_identity"`
+	Prefix      int       `json:"prefix,omitempty"` // length of a file placed before the input in the file set
 }
 
 type c07Prop struct{}
@@ -105,7 +106,7 @@ func (*c07Prop) Gen(r *Rand, pl *Plan) Case {
 	if size <= 0 {
 		size = 12
 	}
-	c := &c07Case{MapSeed: r.U64(), MapIdentity: r.Chance(1, 8)}
+	c := &c07Case{MapSeed: r.U64(), MapIdentity: r.Chance(1, 8), Prefix: genPrefix(r)}
 	alphabet := "ab"
 	switch r.Intn(10) {
 	case 0, 1, 2:
@@ -562,7 +563,7 @@ func (*c07Prop) Run(cc Case) (v Verdict) {
 	m := newMonitor()
 	b := build(c.G, &buildOpts{Memo: true, Wrap: m.wrap})
 	an := c.G.analyze()
-	ctx := newCtx(c.Input, 0)
+	ctx := newCtx(c.Input, c.Prefix)
 	first := map[[2]int]string{}
 	consumers := map[int]bool{}
 	for i := range c.Steps {
@@ -700,6 +701,11 @@ func (*c07Prop) Shrink(cc Case) []Case {
 	if !c.MapIdentity {
 		k := clone()
 		k.MapIdentity = true
+		out = append(out, k)
+	}
+	if c.Prefix > 0 {
+		k := clone()
+		k.Prefix = 0
 		out = append(out, k)
 	}
 	return out
